@@ -113,7 +113,61 @@ Theorem C09_spec_ack_meaning :
 Proof. exact spec_ack_iff. Qed.
 Print Assumptions C09_spec_ack_meaning.
 
+(* A client serves a sequence of bulks: the verdict and the log of each bulk are those of that bulk
+   run alone (the write status is fresh per bulk, nothing is carried over) ... *)
+Theorem C09_sequence_state_independent :
+  forall tries pre b post,
+    store_sequence tries (pre ++ b :: post) =
+    store_sequence tries pre ++ run_bulk tries b :: store_sequence tries post.
+Proof. exact sequence_independent. Qed.
+Print Assumptions C09_sequence_state_independent.
+
+(* ... hence acknowledgement is sound for EVERY bulk of EVERY sequence: a nil result means a full
+   replica set per configured tier returned success for a call with THAT bulk's payload, among
+   the calls made while that bulk ran *)
+Theorem C09_ack_sound_sequence :
+  forall tries bs i b s log,
+    1 <= tries -> nth_error bs i = Some b ->
+    nth_error (store_sequence tries bs) i = Some (s, log, true) ->
+    AckT (bi_pay b) Cold (bi_cin b) log /\ AckT (bi_pay b) Hot (bi_hin b) log.
+Proof. exact ack_sound_sequence. Qed.
+Print Assumptions C09_ack_sound_sequence.
+
+Theorem C09_fail_reported_sequence :
+  forall tries bs i b s log ok,
+    1 <= tries -> nth_error bs i = Some b ->
+    nth_error (store_sequence tries bs) i = Some (s, log, ok) ->
+    (~ FullT (cold s) \/ ~ FullT (hot s)) -> ok = false.
+Proof. exact fail_reported_sequence. Qed.
+Print Assumptions C09_fail_reported_sequence.
+
+(* the per-bulk executable spec checker holds on the model for every sequence with legal orders *)
+Theorem C09_model_satisfies_spec_sequence :
+  forall tries bs,
+    1 <= tries ->
+    forallb (fun b => forallb (legal_order (length (bi_cin b))) (bi_cord b)
+                      && forallb (legal_order (length (bi_hin b))) (bi_hord b)) bs = true ->
+    all2 (fun b m => let '(_, log, ok) := m in
+                     spec_ok tries (bi_pay b) (bi_cin b) (bi_hin b) (bi_cancel b) ok log)
+         bs (store_sequence tries bs) = true.
+Proof. exact model_spec_ok_sequence. Qed.
+Print Assumptions C09_model_satisfies_spec_sequence.
+
 (* ------------------------------------------------------------------ non-vacuity *)
+
+(* why the status must not be carried over: with a status object reused dirty after a failed bulk
+   (store_sequence_v0) the second bulk of v0_seq is acknowledged with only replica 1 written *)
+Example C09_status_carried_over_v0_refuted :
+  exists s log, nth_error (store_sequence_v0 3 v0_seq) 1 = Some (s, log, true) /\
+                log = [mkVisit Hot 0 false [mkCall 1 OOk 1]] /\
+                ~ AckT 1 Hot [([], [[OOk]; [OOk]])] log.
+Proof. exact status_carried_over_v0_refuted. Qed.
+(* the model as built (fresh status) calls both replicas for the second bulk of the same sequence *)
+Example C09_status_fresh_on_same_sequence :
+  exists s, nth_error (store_sequence 3 v0_seq) 1 =
+            Some (s, [mkVisit Hot 0 false [mkCall 0 OOk 1; mkCall 1 OOk 1]], true).
+Proof. exact status_fresh_on_same_sequence. Qed.
+
 
 (* cold 1x2 + hot 2x1; replica cold/0/1 fails its first call, hot shard 1 is short-circuited on
    its first visit and hot shard 0 fails once: acknowledged in the second attempt, with a
